@@ -121,8 +121,15 @@ def gen_paths(ctx):
             for _ in range(ctx.budget(3, 12)):
                 parts = r.split('/')
                 i = rng.randrange(0, len(parts) + 1)
-                parts[i:i] = [rng.choice(['.', 'sub/..', 'nope/..', '', 'root/..', '../root', '../root_evil/..'])]
-                out.append(rng.choice(['/', '\\', '//']).join(parts) if rng.random() < 0.5 else '/'.join(parts))
+                parts[i:i] = [rng.choice(['.', 'sub/..', 'nope/..', '', 'root/..', '../root', '../root_evil/..', 'nope\\x/..', '..\\roo/..',
+                                          'sub\\../..', '..\\..'])]
+                x = rng.random()
+                if x < 0.3:
+                    out.append(rng.choice(['/', '\\', '//']).join(parts))
+                elif x < 0.6:
+                    out.append('/'.join(parts))
+                else:
+                    out.append(parts[0] + ''.join(rng.choice(SEPS) + q for q in parts[1:]))
     for _ in range(ctx.budget(4000, 60000)):
         n = rng.randrange(1, 9)
         s = rng.choice(LEADS)
@@ -284,12 +291,25 @@ def nontrivial(p):
     return '..' in p or '\\' in p or p.startswith('/') or p.startswith('<')
 
 
-def lexical_outside(root, p):
-    """The property's own notion, stated with os.path: the lexical target of root/p is outside root."""
+def _outside(root, p):
     tgt = os.path.normpath(os.path.join(root, p))
     rc = [c for c in root.split('/') if c]
     tc = [c for c in tgt.split('/') if c]
     return tc[:len(rc)] != rc
+
+
+def lexical_outside(root, p):
+    """The property's own notion, stated with os.path: the lexical target of root/p is outside root — whether a
+    backslash is read as a separator (as the module documents) or as a name character (as POSIX does)."""
+    return _outside(root, p) and _outside(root, p.replace('\\', '/'))
+
+
+def exists_inside(root, p):
+    """Some reading of p names an existing regular file inside root."""
+    for q in (p, p.replace('\\', '/')):
+        if not _outside(root, q) and os.path.isfile(os.path.normpath(os.path.join(root, q))):
+            return True
+    return False
 
 
 def check_property(ctx, cfg, sym_p, root_real, o, locs, op_keys):
@@ -342,13 +362,17 @@ def run_fs(ctx, drv, tree, fsmod):
             obs = []
             for sp in use:
                 p = tree.subst(sp)
-                if not constrain and not inside(T, os.path.normpath(os.path.join(root, p))):
+                if not constrain and not (inside(T, os.path.normpath(os.path.join(root, p)))
+                                          and inside(T, os.path.normpath(os.path.join(root, p.replace('\\', '/'))))):
                     continue   # never walk the machine's whole file system
                 o, locs = obs_raw(fsmod, fs, p, tree)
                 if constrain:
                     check_property(ctx, cfg, sp, root, o, locs, None)
                     out = lexical_outside(root, p)
                     ctx.count('raw:target-outside' if out else 'raw:target-inside')
+                    if o['exists'] is True and not exists_inside(root, p):
+                        ctx.witness('root-escape', f'{sp!r} in <constrained filesystem rooted at {root_rel}> is True but no reading of the path names a file inside the root',
+                                    {'config': cfg, 'path': sp, 'op': 'exists'})
                     for k, v in o.items():
                         if out and v != 'escape':
                             ctx.witness('root-escape', f'{k}({sp!r}) on a constrained filesystem rooted at {root_rel}: the path names '
@@ -544,9 +568,12 @@ def _fails(fsmod, tree, cfg, sym_path, op):
                 root = os.path.join(T, cfg['root'])
                 fs = fsmod.RawFileSystem(root, cfg.get('constrain', True))
             o, locs = obs_raw(fsmod, fs, p, tree)
-            if any(not inside(root, loc) for _, loc in locs):
+            key = {'open_bin': 'open'}.get(op, op)
+            if any(not inside(root, loc) for k, loc in locs if k == op):
                 return True
-            return lexical_outside(root, p) and any(v != 'escape' for v in o.values())
+            if op == 'exists' and o['exists'] is True and not exists_inside(root, p):
+                return True
+            return lexical_outside(root, p) and o.get(key, 'escape') != 'escape'
         else:
             os.chdir(T)
             members = [tuple(m) for m in cfg['members']]
